@@ -703,6 +703,13 @@ def check_ldap(ctx, rng, reg, be):
         exp2['assignments'] = sorted(exp2['assignments'], key=lambda a: a['pattern'])
     if which == 'partition' and 'limits' in exp2:
         exp2['limits'] = sorted(exp2['limits'], key=lambda a: a['trait'])
+    for key in ('assignments', 'limits'):
+        # an option-indexed list that the update empties is empty afterwards (the encoders emit the empty groups for it)
+        if which != 'app' and written.get(key) == [] and obj.get(key):
+            ctx.count('ldap_update_emptied_option_indexed_list')
+            if got2.get(key):
+                ctx.violation('ldap:%s:update-get-differs:emptied-list-survives:%s' % (which, key),
+                              'updated with %s == [], read back %r' % (key, got2.get(key)), case=dict(case, update=obj2))
     bad = subset_diff(exp2, view(got2))
     if bad:
         ctx.violation('ldap:%s:update-get-differs:%s' % (which, bad[0].split('[')[0]),
